@@ -1182,7 +1182,14 @@ func (ctx *Context) evaluate() {
 			e.top = newTop
 			fstrBlockIndex -= 1
 			if v != nil {
-				stackPush(v)
+				// 语句块的值在这里就转成文本: 留在栈上的若是数组/字典本身，后面的语句块修改它会连带改掉已经拼好的前半段
+				// (a = [1]; `{a}{% a[0] = 2 %}` 得到 [2]2)
+				s := v.ToString()
+				if len(s) > maxStringLength {
+					ctx.Error = errors.New("不能一次性创建过长的字符串")
+					return
+				}
+				stackPush(NewStrVal(s))
 			} else {
 				stackPush(NewStrVal(""))
 			}
